@@ -34,18 +34,20 @@ Definition marshal_le (e : levent) : bytes :=
 
 (* Marshal(buf) with len(buf) = sz, as iwrapper.Get calls it (the error is ignored there): the parts are
    written one after the other, each after its own space check; the first part that does not fit stops
-   the marshalling.  The buffer comes from a pool; its previous content is modelled as zeros.  (The
-   theorem writable_size_ok shows that with sz = WritableSize() every part fits, so the modelling of
-   the left-over bytes is never observable.) *)
+   the marshalling (Marshal returns its error).  A length prefix is written byte by byte (MarshalUint
+   stores every byte that still fits before it reports the lack of space), so its bytes are parts of
+   their own; header, timestamp and the bodies are written whole or not at all.  The buffer's previous
+   content is modelled as zeros.  (writable_size_ok: with sz = WritableSize() every part fits.) *)
 Fixpoint fill_parts (parts : list bytes) (room : nat) : bytes :=
   match parts with
   | [] => repeat x00 room
   | p :: tl => if (room <? length p)%nat then repeat x00 room else p ++ fill_parts tl (room - length p)
   end.
+Definition singles (l : bytes) : list bytes := map (fun b => [b]) l.
 Definition le_parts (e : levent) : list bytes :=
   let hdr := le_header e in
-  [ [byte_of_N hdr]; marshal_u64 (u64_of_int64 (le_ts e)); marshal_uint (N.of_nat (length (le_msg e))); le_msg e ] ++
-  (if N.eqb (N.land hdr 1) 0 then [] else [ marshal_uint (N.of_nat (length (le_flds e))); le_flds e ]).
+  [ [byte_of_N hdr]; marshal_u64 (u64_of_int64 (le_ts e)) ] ++ singles (marshal_uint (N.of_nat (length (le_msg e)))) ++ [ le_msg e ] ++
+  (if N.eqb (N.land hdr 1) 0 then [] else singles (marshal_uint (N.of_nat (length (le_flds e)))) ++ [ le_flds e ]).
 Definition marshal_into (sz : nat) (e : levent) : bytes := fill_parts (le_parts e) sz.
 
 (* Unmarshal into the struct [prev] that the caller reuses.  Fields is assigned when bit 0 of the header
